@@ -1,10 +1,17 @@
 (* Proofs about the history-level model (HistDefs.v).  No axioms.
-   Part S: what an accepted scan of a fragment-AB graph means for the plan: outputs_ready_ and the
-           want map (kWantToStart <-> needed and must_dirty), built on ScanProofs' invariants.
-   Part H: the semantic side: StateOk/LogSound are kept by every history step; a statement the
-           scan judges clean has the contents of a clean build; C01; C02. *)
+   Part S: what an accepted scan of a fragment-AB graph means for the plan: outputs_ready_ ([RI]),
+           the want map ([PI]; kWantToStart <-> needed and must_dirty: [scan_want_sound],
+           [scan_want_complete]) and acceptance when nothing is dirty ([scan_accepts]); built on
+           ScanProofs' invariants SInv / vrel.
+   Part H: the semantic side: StateOk/LogSound are kept by every history step ([logsound_*],
+           [good_hist]); a statement the scan judges clean has the contents of a clean build
+           ([scan_clean_correct]); the loop invariants of one build ([build_inv1], [build_inv_c01],
+           [build_inv_c02]); C01 ([C01_build_equals_clean], [C01_history]); C02 ([C02_converges],
+           [C02_second_build_idle], [C02_history]); the clause about edits while a command runs
+           ([good_run_racy], [C01_racy_plain_recovers]; refuted without "neither restat nor
+           generator": [C01_racy_generator_refuted], [C01_racy_restat_refuted]). *)
+From NinjaV Require Import Engine.CrashDefs.
 From NinjaV Require Import Base.Bytes Engine.ScanDefs Engine.ScanSpec Engine.ScanProofs Engine.HistDefs.
-From NinjaV Require Engine.CrashDefs.
 Local Open Scope nat_scope.
 
 (* ================================================================== generic *)
@@ -1014,6 +1021,55 @@ Definition fresh_or_same (st st' : hstate) (t0 : Z) (f : node -> content) (os : 
   forall n, h_disk st' n = h_disk st n \/
             exists m, h_disk st' n = Some (m, f n) /\ t0 < m <= h_clock st' /\ In n os.
 
+Lemma finish_run_spec sc st1 e h S t0 :
+  0 <= h_clock st1 -> (forall n m c, h_disk st1 n = Some (m, c) -> 0 < m <= h_clock st1) ->
+  t0 <= h_clock st1 ->
+  let st' := finish_run cmd g sc st1 e h S t0 in
+  h_hash st' = h_hash st1 /\
+  h_clock st1 <= h_clock st' /\
+  (forall n, ~ In n (outs e) ->
+     h_disk st' n = h_disk st1 n /\ h_blog st' n = h_blog st1 n /\ h_ghost st' n = h_ghost st1 n) /\
+  fresh_or_same st1 st' (h_clock st1) (cmd e h S) (outs e) /\
+  (forall n m c, h_disk st' n = Some (m, c) -> 0 < m <= h_clock st') /\
+  (exists m, t0 <= m <= h_clock st' /\
+     (t0 <> 0 -> ei_restat (g_edge g e) = false -> ei_generator (g_edge g e) = false -> m = t0) /\
+     forall o, In o (outs e) ->
+       h_blog st' o = Some (h, m) /\ h_ghost st' o = Some S /\
+       exists mo, h_disk st' o = Some (mo, cmd e h S o)) /\
+  (ei_restat (g_edge g e) = false -> forall o, In o (outs e) ->
+     exists mo, h_disk st' o = Some (mo, cmd e h S o) /\ h_clock st1 < mo).
+Proof.
+  intros Hc Hd Ht. cbn zeta. unfold finish_run.
+  destruct (write_outs_spec (ei_restat (g_edge g e)) (cmd e h S) (outs e) st1)
+    as [B [Hh [Gh [Tr [C [D [E [F K]]]]]]]]. cbn zeta in *.
+  set (st2 := write_outs (ei_restat (g_edge g e)) (cmd e h S) (outs e) st1) in *.
+  set (m := CrashDefs.record_mtime (crash_cfg (g_edge g e) h) t0
+              (map (orec_of sc) (outs e)) (map (orec_of st2) (outs e))).
+  assert (Hd2 : forall n m0 c, h_disk st2 n = Some (m0, c) -> 0 < m0 <= h_clock st2).
+  { intros n m0 c Hn. destruct (E n) as [En|[m1 [Em [Hm _]]]].
+    - rewrite En in Hn. specialize (Hd n m0 c Hn). lia.
+    - rewrite Em in Hn. inversion Hn; subst. lia. }
+  cbn [record h_hash h_clock h_disk h_blog h_ghost].
+  split; [exact Hh|]. split; [exact C|]. split; [|split; [|split; [|split]]].
+  - intros n Hn. rewrite (mem_node_false n _ Hn). split; [apply D; exact Hn|]. split; [rewrite B|rewrite Gh]; reflexivity.
+  - intros n. destruct (E n) as [En|[m1 [Em [Hm Hin]]]]; [left; exact En|].
+    right. exists m1. split; [exact Em|]. split; [exact Hm|exact Hin].
+  - exact Hd2.
+  - exists m. split; [|split].
+    + destruct (record_mtime_bounds (crash_cfg (g_edge g e) h) t0
+                  (map (orec_of sc) (outs e)) (map (orec_of st2) (outs e))) as [A1 A2].
+      fold m in A1, A2. split; [exact A1|].
+      destruct A2 as [->|[a [Ha ->]]]; [lia|].
+      apply in_map_iff in Ha. destruct Ha as [o [<- Ho]]. unfold orec_of, CrashDefs.stat. cbn [CrashDefs.o_file].
+      destruct (h_disk st2 o) as [[mo c]|] eqn:Hdo; [|lia]. destruct (Hd2 o mo c Hdo). lia.
+    + intros Hnz Hr Hg. subst m. unfold CrashDefs.record_mtime, crash_cfg.
+      cbn [CrashDefs.c_restat CrashDefs.c_generator]. rewrite Hr, Hg.
+      destruct (Z.eqb_spec t0 0); [contradiction|reflexivity].
+    + intros o Ho. rewrite (proj2 (mem_node_In o _) Ho). split; [reflexivity|]. split; [reflexivity|].
+      apply F; exact Ho.
+  - intros Hr o Ho. destruct (K Hr o Ho) as [mo [Em Hm]]. exists mo. split; [exact Em|lia].
+Qed.
+
 Lemma run_edge_spec st e :
   0 <= h_clock st -> (forall n m c, h_disk st n = Some (m, c) -> 0 < m <= h_clock st) ->
   let st' := run_edge cmd g st e in
@@ -1034,33 +1090,14 @@ Lemma run_edge_spec st e :
      exists mo, h_disk st' o = Some (mo, cmd e h S o) /\ t0 < mo).
 Proof.
   intros Hc Hd. cbn zeta. unfold run_edge.
-  set (h := h_hash st e). set (S := reads g st e). set (st1 := tick st).
-  destruct (write_outs_spec (ei_restat (g_edge g e)) (cmd e h S) (outs e) st1)
-    as [B [Hh [Gh [Tr [C [D [E [F K]]]]]]]]. cbn zeta in *.
-  set (st2 := write_outs (ei_restat (g_edge g e)) (cmd e h S) (outs e) st1) in *.
-  set (m := CrashDefs.record_mtime (crash_cfg (g_edge g e) h) (h_clock st1)
-              (map (orec_of st) (outs e)) (map (orec_of st2) (outs e))).
-  change (h_clock st1) with (h_clock st + 1) in *. change (h_disk st1) with (h_disk st) in *.
-  assert (Hd2 : forall n m0 c, h_disk st2 n = Some (m0, c) -> 0 < m0 <= h_clock st2).
-  { intros n m0 c Hn. destruct (E n) as [En|[m1 [Em [Hm _]]]].
-    - rewrite En in Hn. specialize (Hd n m0 c Hn). lia.
-    - rewrite Em in Hn. inversion Hn; subst. lia. }
-  cbn [record h_hash h_clock h_disk h_blog h_ghost].
-  split; [exact Hh|]. split; [exact C|]. split; [|split; [|split; [|split]]].
-  - intros n Hn. rewrite (mem_node_false n _ Hn). split; [apply D; exact Hn|]. split; [rewrite B|rewrite Gh]; reflexivity.
-  - intros n. destruct (E n) as [En|[m1 [Em [Hm Hin]]]]; [left; exact En|].
-    right. exists m1. split; [exact Em|]. split; [exact Hm|exact Hin].
-  - exact Hd2.
-  - exists m. split.
-    + destruct (record_mtime_bounds (crash_cfg (g_edge g e) h) (h_clock st + 1)
-                  (map (orec_of st) (outs e)) (map (orec_of st2) (outs e))) as [A1 A2].
-      fold m in A1, A2. split; [exact A1|].
-      destruct A2 as [->|[a [Ha ->]]]; [exact C|].
-      apply in_map_iff in Ha. destruct Ha as [o [<- Ho]]. unfold orec_of, CrashDefs.stat. cbn [CrashDefs.o_file].
-      destruct (h_disk st2 o) as [[mo c]|] eqn:Hdo; [|lia]. destruct (Hd2 o mo c Hdo). lia.
-    + intros o Ho. rewrite (proj2 (mem_node_In o _) Ho). split; [reflexivity|]. split; [reflexivity|].
-      apply F; exact Ho.
-  - intros Hr o Ho. destruct (K Hr o Ho) as [mo [Em Hm]]. exists mo. split; [exact Em|lia].
+  destruct (finish_run_spec st (tick st) e (h_hash st e) (reads g st e) (h_clock (tick st)))
+    as [A [B [C [D [E [[m [Hm [_ Hlog]]] F]]]]]].
+  - cbn [tick h_clock]. lia.
+  - intros n m c Hn. cbn [tick h_disk h_clock] in *. specialize (Hd n m c Hn). lia.
+  - lia.
+  - cbn zeta in *. change (h_clock (tick st)) with (h_clock st + 1) in *.
+    split; [exact A|]. split; [exact B|]. split; [exact C|]. split; [exact D|]. split; [exact E|].
+    split; [exists m; split; [exact Hm|exact Hlog]|exact F].
 Qed.
 
 (* ---- StateOk is kept *)
@@ -1184,6 +1221,87 @@ Lemma good_run st e :
   Good cmd g st -> (e < g_nedges g)%nat -> phony e = false -> Good cmd g (run_edge cmd g st e).
 Proof.
   intros HG He Hph. split; [apply stateok_run; [exact (proj1 HG)|exact Hph]|apply logsound_run; assumption].
+Qed.
+
+(* ---- the same for a run whose writes start from another state [st1] than the one the command
+   read in: all that is needed is that the snapshot is a faithful picture of [st1] for the mtime
+   that will be recorded *)
+Lemma good_finish sc st1 e h S t0 :
+  Good cmd g st1 -> (e < g_nedges g)%nat -> phony e = false -> t0 <= h_clock st1 ->
+  map fst S = nonoo_ins g e ->
+  (forall m, t0 <= m ->
+     (t0 <> 0 -> ei_restat (g_edge g e) = false -> ei_generator (g_edge g e) = false -> m = t0) ->
+     snap_fresh g st1 m S) ->
+  Good cmd g (finish_run cmd g sc st1 e h S t0).
+Proof.
+  intros [[A [B [C [D E]]]] L] He Hph Ht HmS Hsnap.
+  destruct (finish_run_spec sc st1 e h S t0 A B Ht) as [Hh [Hc [Hout [Hfs [Hd [[m [Hm [Hpl Hlog]]] _]]]]]].
+  cbn zeta in *. set (st' := finish_run cmd g sc st1 e h S t0) in *.
+  split.
+  - split; [lia|]. split; [exact Hd|]. split; [|split].
+    + intros n h0 m0 Hn. destruct (in_dec Nat.eq_dec n (outs e)) as [Hin|Hnin].
+      * destruct (Hlog n Hin) as [Hb _]. rewrite Hb in Hn. inversion Hn; subst. lia.
+      * destruct (Hout n Hnin) as [_ [Hb _]]. rewrite Hb in Hn. specialize (C n h0 m0 Hn). lia.
+    + intros n e' He' Hph'. assert (Hnin : ~ In n (outs e)).
+      { intros Hin. rewrite (o_prod e n Hin) in He'. inversion He'; subst. congruence. }
+      rewrite (proj1 (Hout n Hnin)). apply (D n e' He' Hph').
+    + intros n e' He' Hph'. destruct (in_dec Nat.eq_dec n (outs e)) as [Hin|Hnin].
+      * destruct (Hlog n Hin) as [Hb _]. rewrite Hb. discriminate.
+      * destruct (Hout n Hnin) as [Hd' [Hb _]]. rewrite Hd', Hb. apply (E n e' He' Hph').
+  - intros e1 o h1 m1 mo c Hph1 Ho Hb Hdo.
+    destruct (in_dec Nat.eq_dec o (outs e)) as [Hin|Hnin].
+    + assert (e1 = e) by (pose proof (o_prod e1 o Ho) as H1; rewrite (o_prod e o Hin) in H1; congruence). subst e1.
+      destruct (Hlog o Hin) as [Hb' [Hg' [mo' Hd']]]. rewrite Hb' in Hb. inversion Hb; subst h1 m1.
+      rewrite Hd' in Hdo. inversion Hdo; subst mo c.
+      exists S. split; [exact Hg'|]. split; [exact HmS|]. split; [reflexivity|].
+      intros i ci Hi. destruct (Hsnap m (proj1 Hm) Hpl i ci Hi) as [F1 F2]. split; [exact F1|].
+      intros mi c' Hdi Hle.
+      assert (Hin' : In i (nonoo_ins g e)) by (rewrite <- HmS; apply (in_map fst S (i, ci) Hi)).
+      assert (Hni : ~ In i (outs e)).
+      { apply (not_out_of_below e e i); [apply (in_below e i He (nonoo_in e i Hin'))|lia]. }
+      rewrite (proj1 (Hout i Hni)) in Hdi. apply (F2 mi c' Hdi Hle).
+    + destruct (Hout o Hnin) as [Hd1 [Hb1 Hg1]]. rewrite Hb1 in Hb. rewrite Hd1 in Hdo.
+      destruct (L e1 o h1 m1 mo c Hph1 Ho Hb Hdo) as [S1 [HS [HmS1 [HcS Hf]]]].
+      exists S1. split; [rewrite Hg1; exact HS|]. split; [exact HmS1|]. split; [exact HcS|].
+      intros i ci Hi. destruct (Hf i ci Hi) as [F1 F2]. split; [exact F1|].
+      intros mi c' Hdi Hle. destruct (Hfs i) as [Hsame|[mx [Hx [Hmx _]]]].
+      * rewrite Hsame in Hdi. apply (F2 mi c' Hdi Hle).
+      * rewrite Hx in Hdi. inversion Hdi; subst. specialize (C o h1 m1 Hb). lia.
+Qed.
+
+Lemma good_tick st : Good cmd g st -> Good cmd g (tick st).
+Proof.
+  intros [[A [B [C [D E]]]] L]. split; [|exact L].
+  unfold StateOk, tick. cbn [h_clock h_disk h_blog].
+  split; [lia|]. split; [|split; [|split; [exact D|exact E]]].
+  - intros n m c Hn. specialize (B n m c Hn). lia.
+  - intros n h m Hn. specialize (C n h m Hn). lia.
+Qed.
+
+(* C01's clause about concurrent edits, positive half: a source rewritten while a PLAIN command
+   (neither restat nor generator) that may have read it is running does not break the invariant
+   (the log entry carries the start tick, the edit is later), so the next successful build
+   yields the clean contents again *)
+Theorem good_run_racy st e n c :
+  Good cmd g st -> (e < g_nedges g)%nat -> phony e = false ->
+  ei_restat (g_edge g e) = false -> ei_generator (g_edge g e) = false ->
+  is_source g n = true ->
+  Good cmd g (run_edge_racy cmd g st e n c).
+Proof.
+  intros HG He Hph Hr Hgn Hsrc. unfold run_edge_racy.
+  pose proof (good_tick st HG) as HGt.
+  assert (HGE : Good cmd g (write_file (tick st) n c)).
+  { split; [apply stateok_edit; [exact (proj1 HGt)|exact Hsrc]|apply logsound_edit; assumption]. }
+  destruct HG as [[A [B [C [D E]]]] L].
+  apply good_finish; [exact HGE|exact He|exact Hph|cbn [write_file tick h_clock]; lia| |].
+  - unfold reads. rewrite map_map. cbn [fst]. apply map_id.
+  - intros m Hm Hpl. rewrite (Hpl ltac:(cbn [tick h_clock]; lia) Hr Hgn).
+    intros i ci Hi. unfold reads in Hi. apply in_map_iff in Hi. destruct Hi as [i' [Hi' Hin']].
+    inversion Hi'; subst i' ci. split.
+    + intros e' He' Hph'. unfold content_of. rewrite (D i e' He' Hph'). reflexivity.
+    + intros mi c'. cbn [write_file tick h_disk h_clock]. unfold upd. destruct (Nat.eqb i n).
+      * intros H Hle. inversion H; subst. lia.
+      * intros H _. unfold content_of. rewrite H. reflexivity.
 Qed.
 
 (* ---- the declarative dirty state of the fragment: locality facts *)
@@ -1864,6 +1982,17 @@ Proof.
   intros Hok Hb. apply (C01_build_equals_clean _ T st' (good_hist h _ good_init Hok) Hb).
 Qed.
 
+(* the next build after a racy plain command *)
+Theorem C01_racy_plain_recovers st e n c T st' :
+  Good cmd g st -> (e < g_nedges g)%nat -> phony e = false ->
+  ei_restat (g_edge g e) = false -> ei_generator (g_edge g e) = false ->
+  is_source g n = true ->
+  build cmd g (run_edge_racy cmd g st e n c) T = Some st' ->
+  forall x, reach g T x -> content_of st' x = clean_of cmd g st' x.
+Proof.
+  intros HG He Hph Hr Hgn Hsrc Hb. apply (C01_build_equals_clean _ T st' (good_run_racy st e n c HG He Hph Hr Hgn Hsrc) Hb).
+Qed.
+
 (* C02 over histories *)
 Theorem C02_history h T st' :
   hist_ok g h = true -> no_inputless_phony g = true ->
@@ -1877,3 +2006,84 @@ Proof.
 Qed.
 
 End Hist.
+
+(* ================================================================== the example project is a model *)
+Lemma Ex_wf_spec : wf_spec Ex.g.
+Proof.
+  split; [|split].
+  - intros e o Ho. destruct e as [|[|[|[|e]]]]; cbn in Ho; try (destruct Ho as [<-|[]]; reflexivity); destruct Ho.
+  - intros n e Hp. destruct n as [|[|[|[|[|[|n]]]]]]; cbn in Hp; try discriminate; inversion Hp; subst; cbn; left; reflexivity.
+  - intros e Hd. exfalso. apply Hd. destruct e as [|[|[|[|e]]]]; reflexivity.
+Qed.
+
+Lemma Ex_wf_graph : wf_graph Ex.g.
+Proof.
+  intros n e Hp. destruct n as [|[|[|[|[|[|n]]]]]]; cbn in Hp; try discriminate; inversion Hp; subst; cbn; lia.
+Qed.
+
+Lemma Ex_gen : forall e h h' S o,
+  ei_generator (g_edge Ex.g e) = true -> Ex.cmd e h S o = Ex.cmd e h' S o.
+Proof. intros e h h' S o H. destruct e as [|[|[|[|e]]]]; cbn in H; discriminate. Qed.
+
+
+(* ================================================================== the exception of C01 *)
+Lemma ExRace_wf_spec r gn : wf_spec (ExRace.mk r gn).
+Proof.
+  split; [|split].
+  - intros e o Ho. destruct e as [|e]; cbn in Ho; [destruct Ho as [<-|[]]; reflexivity|destruct Ho].
+  - intros n e Hp. destruct n as [|[|n]]; cbn in Hp; try discriminate. inversion Hp; subst. cbn. left; reflexivity.
+  - intros e Hd. exfalso. apply Hd. destruct e as [|e]; reflexivity.
+Qed.
+
+Lemma ExRace_wf_graph r gn : wf_graph (ExRace.mk r gn).
+Proof. intros n e Hp. destruct n as [|[|n]]; cbn in Hp; try discriminate. inversion Hp; subst. cbn. lia. Qed.
+
+Lemma ExRace_gen r gn : forall e h h' S o,
+  ei_generator (g_edge (ExRace.mk r gn) e) = true -> Ex.cmd e h S o = Ex.cmd e h' S o.
+Proof. intros e h h' S o H. destruct e as [|e]; [reflexivity|cbn in H; discriminate]. Qed.
+
+(* [C01_racy_plain_recovers] without its two premises "neither restat nor generator" *)
+Definition C01_racy_full : Prop :=
+  forall (cmd : edge -> N -> snapshot -> node -> content) (g : graph),
+    wf_spec g -> wf_graph g -> frag_AB g = true -> topo_ordered g = true ->
+    (forall (e : edge) (h h' : N) (S : snapshot) (o : node),
+       ei_generator (g_edge g e) = true -> cmd e h S o = cmd e h' S o) ->
+  forall (st : hstate) (e : nat) (n : node) (c : content) (T : list node) (st' : hstate),
+    Good cmd g st -> (e < g_nedges g)%nat -> ei_phony (g_edge g e) = false ->
+    is_source g n = true ->
+    build cmd g (run_edge_racy cmd g st e n c) T = Some st' ->
+    forall x : node, reach g T x -> content_of st' x = clean_of cmd g st' x.
+
+Lemma racy_refuted_by r gn :
+  frag_AB (ExRace.mk r gn) = true -> topo_ordered (ExRace.mk r gn) = true ->
+  (exists st', build Ex.cmd (ExRace.mk r gn) (ExRace.after_race (ExRace.mk r gn)) [1%nat] = Some st' /\
+               st' = ExRace.next (ExRace.mk r gn)) ->
+  content_of (ExRace.next (ExRace.mk r gn)) 1%nat <>
+    clean_of Ex.cmd (ExRace.mk r gn) (ExRace.next (ExRace.mk r gn)) 1%nat ->
+  ~ C01_racy_full.
+Proof.
+  intros Hf Ht [st' [Hb Hst']] Hne Hfull. subst st'. apply Hne.
+  apply (Hfull Ex.cmd (ExRace.mk r gn) (ExRace_wf_spec r gn) (ExRace_wf_graph r gn) Hf Ht (ExRace_gen r gn)
+               (write_file (init_hstate (ExRace.mk r gn)) 0%nat 5%N) 0%nat 0%nat 6%N [1%nat] _).
+  - apply (good_step Ex.cmd (ExRace.mk r gn) (ExRace_wf_spec r gn) Ht _ (Edit 0 5)); [apply good_init|reflexivity].
+  - cbn. lia.
+  - reflexivity.
+  - reflexivity.
+  - exact Hb.
+  - apply reach_target. left; reflexivity.
+Qed.
+
+(* the exception the property text makes, as a refutation of the unrestricted statement *)
+Theorem C01_racy_generator_refuted : ~ C01_racy_full.
+Proof.
+  apply (racy_refuted_by false true); [vm_compute; reflexivity|vm_compute; reflexivity| |].
+  - eexists. split; [vm_compute; reflexivity|vm_compute; reflexivity].
+  - exact (proj2 ExRace.generator_rule_stale).
+Qed.
+
+Theorem C01_racy_restat_refuted : ~ C01_racy_full.
+Proof.
+  apply (racy_refuted_by true false); [vm_compute; reflexivity|vm_compute; reflexivity| |].
+  - eexists. split; [vm_compute; reflexivity|vm_compute; reflexivity].
+  - exact (proj2 ExRace.restat_rule_stale).
+Qed.
